@@ -88,8 +88,8 @@ func isZeroConst(v ssa.Value) bool {
 
 func c16(r *core.Run) {
 	p := r.P
-	r.Explanation = "Decides on the SSA of lib/executors (+ the containers of lib/store/sqlx and lib/stat), for every path: the container's AddTask/RemoveAll and the `guarded` flag are used only with pe.lock held (incl. closures run synchronously), lock balanced; container state written by AddTask is touched by no other function than AddTask/RemoveAll; when AddTask reports full, RemoveAll and exactly one inflight increment happen before the lock is released and the removed batch is what Add sends to the flusher, after which Add waits for the confirmation; the flusher decrements inflight exactly once per received batch, enters the execution (WaitGroup.Add) before confirming, and executes exactly the received batch; every execution is preceded by exactly one enterExecution and ends in a deferred WaitGroup.Done; Flush executes what RemoveAll returned under the lock; Wait flushes, then waits; the flusher goroutine defers Flush before its loop and returns only when the quit test said so; the quit test clears `guarded` only with inflight == 0 read under the same lock hold, and reports true only then; a flusher is started (asynchronously) exactly when `guarded` was false, after setting it; thresholds are `len(tasks) >= maxTasks` / `size >= maxChunkSize` measured after the append; every container handed to NewPeriodicalExecutor that can ask for a flush at all (bulk, chunk, sqlx dbInserter) does so whenever the count/size measured after its update has reached the limit field / a declared constant of its package (non-strict threshold in any spelling); every function that takes the tasks out of the container and then executes them (Flush) has counted the execution into the wait group before the removal or within the removal's lock hold; RemoveAll returns the state it then resets."
-	r.NotDecided = "exactly-once execution and batch order over interleavings of Add/tick/Flush/Wait; the idle-quit timing; behaviour of the execute callbacks; sync.WaitGroup / channel semantics; for a constant size limit only that the effective threshold is one of the package's declared integer constants (which one is `the` limit is not decided); triggers spelled other than as an ordered comparison of the updated count/size with limit+c (e.g. ==) are reported as not understood."
+	r.Explanation = "Decides on the SSA of lib/executors (+ the containers of lib/store/sqlx and lib/stat), for every path: the container's AddTask/RemoveAll and the `guarded` flag are used only with pe.lock held (incl. closures run synchronously), lock balanced; container state written by AddTask is touched by no other function than AddTask/RemoveAll; when AddTask reports full, RemoveAll and exactly one inflight increment happen before the lock is released and the removed batch is what Add sends to the flusher, after which Add waits for the confirmation; the flusher decrements inflight exactly once per received batch, enters the execution (WaitGroup.Add) before confirming, and executes exactly the received batch; every execution is preceded by exactly one enterExecution and ends in a deferred WaitGroup.Done; every Execute call the flusher's loop can reach runs inside a recover scope below the loop (a literal handed to threading.RunSafe or to any runner that defers a recover before running it, or a function other than the loop's that deferred a non-rethrowing recover before the call), so a panicking batch does not end the flusher while `guarded` stays true; Flush executes what RemoveAll returned under the lock; Wait flushes, then waits; the flusher goroutine defers Flush before its loop and returns only when the quit test said so; the quit test clears `guarded` only with inflight == 0 read under the same lock hold, and reports true only then; a flusher is started (asynchronously) exactly when `guarded` was false, after setting it; thresholds are `len(tasks) >= maxTasks` / `size >= maxChunkSize` measured after the append; every container handed to NewPeriodicalExecutor that can ask for a flush at all (bulk, chunk, sqlx dbInserter) does so whenever the count/size measured after its update has reached the limit field / a declared constant of its package (non-strict threshold in any spelling); every function that takes the tasks out of the container and then executes them (Flush) has counted the execution into the wait group before the removal or within the removal's lock hold; RemoveAll returns the state it then resets."
+	r.NotDecided = "panics raised elsewhere on the flusher goroutine (newTicker, AddTask/RemoveAll of a user container, the deferred Flush when the flusher retires); what the recovering function does with the panic beyond not raising it again; exactly-once execution and batch order over interleavings of Add/tick/Flush/Wait; the idle-quit timing; behaviour of the execute callbacks; sync.WaitGroup / channel semantics; for a constant size limit only that the effective threshold is one of the package's declared integer constants (which one is `the` limit is not decided); triggers spelled other than as an ordered comparison of the updated count/size with limit+c (e.g. ==) are reported as not understood."
 
 	curProg = p
 	funcs := c16Funcs(p, exPkg)
@@ -153,8 +153,48 @@ func c16(r *core.Run) {
 	doneFns := roleSet(func(f *ssa.Function) bool {
 		return f.Parent() == nil && f.Synthetic == "" && wg.fn(f, "Done", false) && !wg.fn(f, "Add", true)
 	})
+	// an execution site of a function: the Execute invoke itself; a plain call that runs a function
+	// literal of that function whose body invokes Execute – the literal applied on the spot or handed
+	// to a synchronous runner (threading.RunSafe, not the goroutine starter): the recover scope of
+	// D3/K10 (c16_r9.go); or a plain call of an execute helper (below)
+	execLit := func(in ssa.Instruction) *ssa.Function {
+		c, ok := in.(*ssa.Call)
+		if !ok || wg.async(c) || c.Call.IsInvoke() {
+			return nil
+		}
+		for _, a := range append([]ssa.Value{c.Call.Value}, c.Call.Args...) {
+			if _, isFn := a.(*ssa.Function); isFn {
+				continue
+			}
+			if fv, ok := c16ResolveFn(a); ok && fv.body != nil && fv.body.Parent() == in.Parent() && len(core.Instrs(fv.body, isExecute)) > 0 {
+				return fv.body
+			}
+		}
+		return nil
+	}
+	runsExecuteHere := func(in ssa.Instruction) bool { return isExecute(in) || execLit(in) != nil }
+	isPEMethod := func(f *ssa.Function) bool {
+		return f.Signature.Recv() != nil && strings.Contains(f.Signature.Recv().Type().String(), "PeriodicalExecutor")
+	}
+	// an execute helper: a method that runs Execute but takes no part in the wait-group accounting and
+	// is only ever run by plain calls (`pe.safeExecute(tasks)` with its own deferred recover): the call
+	// of it is the execution site of its caller
+	execHelpers := roleSet(func(f *ssa.Function) bool {
+		return f.Parent() == nil && isPEMethod(f) && hasCall(f, runsExecuteHere, false) && !wg.fn(f, "Done", true) && !wg.fn(f, "Add", true) && c16UnaccountedUse(funcs, f) == nil
+	})
+	execHelper := func(in ssa.Instruction) *ssa.Function {
+		c, ok := in.(*ssa.Call)
+		if !ok {
+			return nil
+		}
+		if g := c.Call.StaticCallee(); g != nil && execHelpers[g] && g != in.Parent() {
+			return g
+		}
+		return nil
+	}
+	runsExecute := func(in ssa.Instruction) bool { return runsExecuteHere(in) || execHelper(in) != nil }
 	execFns := roleSet(func(f *ssa.Function) bool {
-		return hasCall(f, isExecute, false) && f.Signature.Recv() != nil && strings.Contains(f.Signature.Recv().Type().String(), "PeriodicalExecutor")
+		return hasCall(f, runsExecute, false) && isPEMethod(f) && !execHelpers[f]
 	})
 	addFns := roleSet(func(f *ssa.Function) bool { return hasCall(f, isAddTask, false) })
 	callTo := func(set map[*ssa.Function]bool) func(ssa.Instruction) bool {
@@ -618,19 +658,74 @@ func c16(r *core.Run) {
 			return isDone(d)
 		}
 		for f := range execFns {
-			o.Site(len(core.Instrs(f, isExecute)), core.FuncName(f))
+			o.Site(len(core.Instrs(f, runsExecute)), core.FuncName(f))
 			if len(core.Instrs(f, isDeferDone)) == 0 {
 				o.Fail(p.Pos(f.Pos()), "%s does not defer the WaitGroup.Done: a panicking execute callback leaves Wait blocked forever", core.FuncName(f))
 				continue
 			}
-			if w := core.Precedes(f, isDeferDone, core.Or(isExecute, core.IsReturn)); w != nil {
+			if w := core.Precedes(f, isDeferDone, core.Or(runsExecute, core.IsReturn)); w != nil {
 				o.Fail(p.InstrPos(w), "the batch can be executed / the function can return before Done is deferred")
 			}
 			if w := core.AtMostOnce(f, core.Or(isDeferDone, plain(isDone))); w != nil {
 				o.Fail(p.InstrPos(w), "WaitGroup.Done can run twice for one execution")
 			}
-			for _, c := range core.Instrs(f, isExecute) {
-				if _, ok := core.Strip(core.Forward(core.Args(core.AsCall(c))[1])).(*ssa.Parameter); !ok {
+			for _, c := range core.Instrs(f, runsExecute) {
+				// the value Execute is given, in the scope of f
+				inLit := func(lit, owner *ssa.Function) bool { // Execute in lit gets a parameter of owner that lit captured
+					ok := len(core.Instrs(lit, isExecute)) > 0
+					for _, x := range core.Instrs(lit, isExecute) {
+						arg, given := core.Args(core.AsCall(x))[1], false
+						for i := range owner.Params {
+							if core.CapturedParam(owner, i)(arg) || core.CapturedParam(owner, i)(core.Forward(arg)) {
+								given = true
+							}
+						}
+						ok = ok && given
+					}
+					return ok
+				}
+				isParamOf := func(v ssa.Value, owner *ssa.Function) int {
+					pa, ok := core.Strip(core.Forward(v)).(*ssa.Parameter)
+					if !ok {
+						return -1
+					}
+					for i, q := range owner.Params {
+						if q == pa {
+							return i
+						}
+					}
+					return -1
+				}
+				given := false
+				switch {
+				case execLit(c) != nil:
+					given = inLit(execLit(c), f)
+				case execHelper(c) != nil:
+					g := execHelper(c)
+					given = true
+					for _, x := range core.Instrs(g, runsExecuteHere) {
+						k := -1
+						if lit := execLit(x); lit != nil {
+							if inLit(lit, g) {
+								for i := range g.Params {
+									for _, y := range core.Instrs(lit, isExecute) {
+										if a := core.Args(core.AsCall(y))[1]; core.CapturedParam(g, i)(a) || core.CapturedParam(g, i)(core.Forward(a)) {
+											k = i
+										}
+									}
+								}
+							}
+						} else {
+							k = isParamOf(core.Args(core.AsCall(x))[1], g)
+						}
+						if k < 0 || k >= len(core.Args(core.AsCall(c))) || isParamOf(core.Args(core.AsCall(c))[k], f) < 0 {
+							given = false
+						}
+					}
+				default:
+					given = isParamOf(core.Args(core.AsCall(c))[1], f) >= 0
+				}
+				if !given {
 					o.Fail(p.InstrPos(c), "Execute is not given the batch handed to %s", core.FuncName(f))
 				}
 			}
@@ -1060,7 +1155,7 @@ func c16(r *core.Run) {
 		o.Site(n)
 	})
 
-	c16Extra(r, &c16Env{p: p, funcs: funcs, inPkg: inPkg, conts: conts, isEnter: isEnter, isRemoveAll: isRemoveAll, isExecute: isExecute, async: wg.async})
+	c16Extra(r, &c16Env{p: p, funcs: funcs, inPkg: inPkg, conts: conts, isEnter: isEnter, isRemoveAll: isRemoveAll, isExecute: isExecute, async: wg.async, flusher: flusher, flSel: flSel})
 }
 
 // isFreshStore: the store initialises a field of an object allocated in the same function (constructor).
